@@ -118,7 +118,17 @@ class Source:
                     return o, c
         raise ExtractError('no impl block /%s/ defines fn %s in %s' % (header_re, fn_name, self.path))
 
-    def find_fn(self, name, within=None):
+    def nested_impl_block(self, outer_range, header_re):
+        """an `impl` block nested inside a function body (range of that body)"""
+        lo, hi = outer_range
+        for m in re.finditer(r'\bimpl\b[^{;]*\{', self.masked[lo:hi]):
+            hdr = ' '.join(self.masked[lo + m.start():lo + m.end() - 1].split())
+            if re.search(header_re, hdr):
+                o = lo + m.end() - 1
+                return o, match_close(self.masked, o)
+        raise ExtractError('nested impl /%s/ not found' % header_re)
+
+    def find_fn(self, name, within=None, want_depth=None):
         """returns (sig_start, body_open, body_close) of `fn name` inside the index range `within`."""
         lo, hi = within if within else (0, len(self.masked))
         pat = re.compile(r'(?:pub(?:\([a-z]+\))? )?(?:const )?(?:unsafe )?fn ' + re.escape(name) + r'\b')
@@ -132,7 +142,7 @@ class Source:
                     depth += 1
                 elif ch == '}':
                     depth -= 1
-            want = 1 if within else 0
+            want = want_depth if want_depth is not None else (1 if within else 0)
             if depth == want:
                 res.append(m)
         if len(res) != 1:
@@ -156,8 +166,8 @@ class Source:
             k += 1
         return m.start(), k, match_close(self.masked, k)
 
-    def fn_parts(self, name, within=None):
-        s, o, c = self.find_fn(name, within)
+    def fn_parts(self, name, within=None, want_depth=None):
+        s, o, c = self.find_fn(name, within, want_depth)
         return {
             'name': name,
             'sig': self.text[s:o].strip(),
@@ -538,6 +548,59 @@ class Rewriter:
         self.fired('R16:guard-drop-explicit')
         return b
 
+    # R19: Vec::DrainFilter -- slots as indices, the predicate and element moves as shims over a ghost slot state ----
+    def drainfilter_rules(self, b):
+        b = self.sub('R19:slice-view', r'(?m)^\s*let v = slice::from_raw_parts_mut\([^;]*\);\s*$', '', b)
+        b = self.sub('R19:callback', r'\(self\.pred\)\(&mut v\[(\w+)\]\)', r'cb_pred_elem(&*self, vs, \1)', b)
+        b = self.sub('R19:slot-take', r'ptr::read\(&v\[(\w+)\]\)', r'slot_take(vs, \1)', b)
+        b = self.sub('R19:slot-addr', r'let (\w+): \*(?:const|mut) T = &(?:mut )?v\[([^\]]+)\];', r'let \1 = \2;', b)
+        b = self.map_calls(b, r'(?<![\w.:])ptr::copy_nonoverlapping', lambda m_, a: 'slot_move(vs, %s)' % ', '.join(a[:2]), 'R19:slot-move')
+        # Drop: `self.for_each(drop)` is by definition "call next() until None, dropping every item"
+        b = self.sub('R19:for_each-drop', r'\bself\.for_each\(drop\);', 'loop { match self.next(vs) { Some(x__) => { slot_value_dropped(x__); } None => { break; } } }', b)
+        b = self.sub('R19:base-ptr', r'\bself\.vec\.as_mut_ptr\(\)', '(0usize)', b)
+        b = self.method_to_fn(b, 'sub', 'idx_sub', 'R19:ptr-sub')
+        b = self.map_calls(b, r'(?<![\w.:])ptr::copy', lambda m_, a: 'slots_shift_tail(vs, %s)' % ', '.join(a), 'R19:shift-tail')
+        b = self.map_calls(b, r'\bself\.vec\.set_len', lambda m_, a: 'vec_set_len(vs, %s)' % a[0], 'R19:set_len')
+        return b
+
+    # R18: String::retain -- byte-index abstraction of the text, user predicate as a callback shim ------------------
+    def strip_nested_items(self, b):
+        """items (struct / impl blocks) declared inside the function body are removed from the body text: they are extracted
+        as items of their own (their functions get their own contracts)"""
+        while True:
+            mm = mask(b)
+            m = re.search(r'(?m)^\s*(?:struct\s+\w+[^{;]*\{|impl\b[^{;]*\{)', mm)
+            if not m:
+                return b
+            o = m.end() - 1
+            c = match_close(mm, o)
+            b = b[:m.start()] + b[c + 1:]
+            self.fired('R18:nested-item-lifted')
+
+    def strretain_rules(self, b):
+        if self.cfg.get('strip_nested'):
+            b = self.strip_nested_items(b)
+        g = self.cfg.get('guard')           # name of the scope guard variable if the code has one, else None
+        pre = (g + '.') if g else ''
+        owner = (g + '.s') if g else 'self'
+        b = self.sub('R18:len', r'\b%s\.len\(\)' % re.escape(owner), 'self.len', b)
+        b = self.sub('R18:len', r'\bself\.len\(\)', 'self.len', b)
+        b = self.sub('R18:next-char', r'(?:unsafe\s*)?\{?\s*%s\.get_unchecked\((\w[\w.]*)\.\.(\w+)\)\.chars\(\)\.next\(\)\.(?:unwrap|unwrap_unchecked)\(\)\s*\}?' % re.escape(owner),
+                     r'next_char_at(\1, \2)', b)
+        b = self.sub('R18:char-len', r'\b(\w+)\.len_utf8\(\)', r'char_len_utf8(\1)', b)
+        # what an unwind out of the predicate would leave as the string's length: the guard's Drop value if there is a guard
+        restorable = ('%s.restore_len()' % g) if g else 'self.len'
+        b = self.sub('R18:callback', r'(?<![\w.])f\((\w+)\)', r'cb_pred(%s, %sidx, %sdel_bytes, \1)' % (restorable, pre, pre), b)
+        b = self.sub('R18:base-ptr', r'\b%s\.vec\.as_(?:mut_)?ptr\(\)' % re.escape(owner), '(0usize)', b)
+        b = self.map_calls(b, r'(?<![\w.:])ptr::copy', lambda m_, a: 'text_copy(%s)' % ', '.join(a), 'R18:text-copy')
+        b = self.map_calls(b, r'\b%s\.vec\.set_len' % re.escape(owner), lambda m_, a: 'self.len = %s' % a[0], 'R18:set_len')
+        if g:
+            # `let mut guard = SetLenOnDrop { s: self, idx: 0, del_bytes: 0 };` -> the back-reference field is dropped;
+            # `drop(guard)` -> its Drop body made explicit
+            b = self.sub('R18:guard-backref', r'\bs:\s*self\s*,', '', b)
+            b = self.sub('R18:guard-drop', r'(?<![\w.])drop\(%s\)' % re.escape(g), '%s.drop(self)' % g, b)
+        return b
+
     # R15 ------------------------------------------------------------------------------------
     def desugar_pipeline(self, b):
         """`let X = iter::from_fn(|| GEN); ... X.filter_map(|p| F).next()`  ==  first F(item) that is Some, over the items GEN
@@ -603,6 +666,13 @@ class Rewriter:
             # R17: `Bound<&usize>` patterns lose the reference (the model's bounds hold values); `self.is_char_boundary` is a shim
             b = self.sub('R17:bound-deref', r'\b(Included|Excluded)\(&(\w+)\)', r'\1(\2)', b)
             b = self.sub('R17:is_char_boundary', r'\bself\.is_char_boundary\(', 'is_char_boundary(', b)
+        if kind == 'drainfilter':
+            b = self.drainfilter_rules(b)
+        if kind == 'strretain':
+            b = self.strretain_rules(b)
+        if kind == 'strguard':
+            b = self.sub('R18:len', r'\bself\.s\.len\(\)', 's.len', b)
+            b = self.map_calls(b, r'\bself\.s\.vec\.set_len', lambda m_, a: 's.len = %s' % a[0], 'R18:set_len')
         if kind == 'setlen':
             # R16: the guard's `len: &mut usize` back-reference is dropped (its write-back is made explicit at the use site)
             b = self.sub('R16:guard-deref', r'\*len\b', 'len', b)
